@@ -239,7 +239,11 @@ def one_run(srv, sb, workdir, direction, remote, content, blk, w, tmo, label, ho
     nb_run = len(content) // blk + 1
     lossy = min(w, nb_run) * (srv.flags["dup"] + 1) * (blk + 800) > 140000
     if lossy:
-        run_timeout = max(run_timeout, 60 + 3 * tmo * nb_run)
+        # ... and it runs without the proxy: a relay that holds every datagram for milliseconds turns
+        # 4 MB windows into a queue that outlasts the sender's timeouts (six in a row: it gives up,
+        # rightly), which says nothing about the two programs
+        via_proxy = False
+        run_timeout = max(run_timeout, min(400, 60 + 3 * tmo * nb_run))
     proxy = Proxy(srv.port, host, on_packet=sniff, hold=hold, react=max(0.003, hold / 2), hold_data=srv.flags["dup"] > 0) if via_proxy else None
     port = proxy.port if proxy else srv.port
     if proxy:
